@@ -154,31 +154,63 @@ func valOf(n datamodel.Node) *lib.Val {
 
 // ---------------------------------------------------------------- steps
 
+// pseg is a path segment with its storage form: string-stored (ParsePath, PathSegmentOfString) or
+// int-stored (PathSegmentOfInt).  Text: "/<hex>" resp. "/#<decimal>".
+type pseg struct {
+	s     string
+	isInt bool
+	n     int64
+}
+
+func ss(s string) pseg { return pseg{s: s} }
+func si(n int64) pseg  { return pseg{isInt: true, n: n} }
+
+func strs(p ...string) []pseg {
+	out := make([]pseg, len(p))
+	for i, s := range p {
+		out[i] = ss(s)
+	}
+	return out
+}
+
 type step struct {
-	path []string
+	path []pseg
 	fn   string // id | del | wrap | c:<val>
 	cp   bool
 }
 
-func pathText(p []string) string {
+func pathText(p []pseg) string {
 	if len(p) == 0 {
 		return "."
 	}
 	var sb strings.Builder
 	for _, s := range p {
 		sb.WriteByte('/')
-		sb.WriteString(lib.Hex(s))
+		if s.isInt {
+			sb.WriteByte('#')
+			sb.WriteString(strconv.FormatInt(s.n, 10))
+		} else {
+			sb.WriteString(lib.Hex(s.s))
+		}
 	}
 	return sb.String()
 }
 
-func parsePath(t string) []string {
+func parsePath(t string) []pseg {
 	if t == "." {
 		return nil
 	}
-	var out []string
+	var out []pseg
 	for _, h := range strings.Split(t[1:], "/") {
-		out = append(out, lib.UnHex(h))
+		if strings.HasPrefix(h, "#") {
+			n, err := strconv.ParseInt(h[1:], 10, 64)
+			if err != nil {
+				panic(err)
+			}
+			out = append(out, si(n))
+		} else {
+			out = append(out, ss(lib.UnHex(h)))
+		}
 	}
 	return out
 }
@@ -196,12 +228,28 @@ func parseStep(t string) step {
 	return step{path: parsePath(f[0]), fn: f[1], cp: f[2] == "1"}
 }
 
-func mkPath(p []string) datamodel.Path {
+func mkPath(p []pseg) datamodel.Path {
 	segs := make([]datamodel.PathSegment, len(p))
 	for i, s := range p {
-		segs[i] = datamodel.PathSegmentOfString(s)
+		if s.isInt {
+			segs[i] = datamodel.PathSegmentOfInt(s.n)
+		} else {
+			segs[i] = datamodel.PathSegmentOfString(s.s)
+		}
 	}
 	return datamodel.NewPath(segs)
+}
+
+// typed gives some of the canonical non-negative decimal segments the int-stored form.
+func typed(r *lib.Rng, p []string) []pseg {
+	out := make([]pseg, len(p))
+	for i, s := range p {
+		out[i] = ss(s)
+		if n, err := strconv.ParseInt(s, 10, 64); err == nil && n >= 0 && n < 1<<40 && strconv.FormatInt(n, 10) == s && r.Bool() {
+			out[i] = si(n)
+		}
+	}
+	return out
 }
 
 func seenText(n datamodel.Node) string {
@@ -633,9 +681,24 @@ func split(g *graph, r *lib.Rng, v *lib.Val, budget *int, isRoot bool) *lib.Val 
 			return v
 		}
 		*budget--
-		return lib.Link(c)
+		return lib.Link(indirect(g, r, c))
 	}
 	return v
+}
+
+// indirect sometimes hides the block c behind a chain of 1-3 blocks that are nothing but a link.
+func indirect(g *graph, r *lib.Rng, c string) string {
+	if r.Intn(4) != 0 {
+		return c
+	}
+	for k := 1 + r.Intn(3); k > 0; k-- {
+		c2, err := g.put(lib.Link(c))
+		if err != nil {
+			return c
+		}
+		c = c2
+	}
+	return c
 }
 
 // descend walks the expanded tree at random and returns the path to a node of the wanted kind
@@ -693,6 +756,32 @@ func freshKey(r *lib.Rng, m *lib.Val) string {
 		}
 	}
 	return "fresh#" + strconv.Itoa(r.Intn(1000))
+}
+
+var numKeys = []string{"0", "1", "2", "01", "-1", "+1", "10", "7"}
+
+// addNumericKeys gives some maps of v numeric-looking keys (the ones an int-stored segment can name).
+func addNumericKeys(r *lib.Rng, v *lib.Val) {
+	for _, x := range v.L {
+		addNumericKeys(r, x)
+	}
+	for _, e := range v.M {
+		addNumericKeys(r, e.V)
+	}
+	if v.Kind == lib.KMap && r.Intn(10) < 4 {
+		for j := 0; j <= r.Intn(3); j++ {
+			k := numKeys[r.Intn(len(numKeys))]
+			dup := false
+			for _, e := range v.M {
+				if e.K == k {
+					dup = true
+				}
+			}
+			if !dup {
+				v.M = append(v.M, lib.Entry{K: k, V: r.GenVal(smallCfg, 0)})
+			}
+		}
+	}
 }
 
 var oddIdx = []string{"01", "+1", "-0", "-1", "-5", "00", "+0", "1", "0", "9223372036854775807", "9223372036854775808", "-9223372036854775808", " 1", "1 ", "0x1", "1e0", ""}
@@ -766,14 +855,22 @@ func genStep0(g *graph, r *lib.Rng, cur *lib.Val) step {
 		base = lps[r.Intn(len(lps))]
 		ex = at(ex, base)
 	}
-	st := genStepIn(g, r, ex)
-	st.path = append(append([]string(nil), base...), st.path...)
-	return st
+	p, fn, cp := genStepIn(g, r, ex)
+	return step{path: typed(r, append(append([]string(nil), base...), p...)), fn: fn, cp: cp}
 }
 
-func genStepIn(g *graph, r *lib.Rng, ex *lib.Val) step {
+func genStepIn(g *graph, r *lib.Rng, ex *lib.Val) ([]string, string, bool) {
 	var p []string
-	switch r.Intn(14) {
+	switch r.Intn(16) {
+	case 14, 15: // numeric-looking key on a map (present or not), sometimes something below it
+		q, _, ok := descend(r, ex, lib.KMap, false)
+		p = q
+		if ok {
+			p = append(p, numKeys[r.Intn(len(numKeys))])
+			if r.Intn(4) == 0 {
+				p = append(p, numKeys[r.Intn(len(numKeys))])
+			}
+		}
 	case 0, 1, 2: // existing position
 		p, _, _ = descend(r, ex, 0, true)
 	case 3, 4: // new map key
@@ -872,7 +969,7 @@ func genStepIn(g *graph, r *lib.Rng, ex *lib.Val) step {
 	default:
 		fn = "wrap"
 	}
-	return step{path: p, fn: fn, cp: r.Bool()}
+	return p, fn, r.Bool()
 }
 
 // ---------------------------------------------------------------- records
@@ -917,7 +1014,7 @@ func emitWT(out *lib.Out, id string, g *graph, blocks string, root *lib.Val, s *
 func probe() string {
 	run := func(root *lib.Val, path []string, fn string, cp bool) string {
 		g := newGraph()
-		o := strings.SplitN(runFT(g, root, []step{{path, fn, cp}}), "||", 2)[0]
+		o := strings.SplitN(runFT(g, root, []step{{strs(path...), fn, cp}}), "||", 2)[0]
 		return strings.SplitN(o, "#", 2)[0]
 	}
 	bit := func(b bool) string {
@@ -978,23 +1075,23 @@ func corpus(out *lib.Out) {
 	l3 := lib.List(lib.Int(10), lib.Int(11), lib.Int(12))
 	m3 := lib.Map(e("x", lib.Int(1)), e("l", lib.List(lib.Int(5))), e("a", lib.Str("s")))
 	// witnesses of the findings
-	ft(l3, nil, step{[]string{"1"}, "del", false})
-	ft(l3, nil, step{[]string{"-"}, "del", false})
-	ft(m3, nil, step{[]string{"zz"}, "del", false})
-	ft(m3, nil, step{[]string{"p", "q", "r"}, "del", true})
-	ft(l3, nil, step{[]string{"-5"}, c7, false})
-	ft(l3, nil, step{[]string{"-", "a", "b"}, c7, false})
+	ft(l3, nil, step{strs("1"), "del", false})
+	ft(l3, nil, step{strs("-"), "del", false})
+	ft(m3, nil, step{strs("zz"), "del", false})
+	ft(m3, nil, step{strs("p", "q", "r"), "del", true})
+	ft(l3, nil, step{strs("-5"), c7, false})
+	ft(l3, nil, step{strs("-", "a", "b"), c7, false})
 	ft(lib.Null(), nil, step{nil, "id", false})
 	// conforming behaviour
 	for _, s := range []string{"1", "01", "+1", "-0", "3", "x", "", "9223372036854775808", "-"} {
-		ft(l3, nil, step{[]string{s}, c7, false})
+		ft(l3, nil, step{strs(s), c7, false})
 	}
-	ft(m3, nil, step{[]string{"x"}, "del", false})
-	ft(m3, nil, step{[]string{"zz"}, c7, false})
-	ft(m3, nil, step{[]string{"p", "q"}, c7, false})
-	ft(m3, nil, step{[]string{"p", "q"}, c7, true})
-	ft(m3, nil, step{[]string{"x", "y"}, c7, true})
-	ft(m3, nil, step{[]string{"l", "0"}, "wrap", false}, step{[]string{"l", "0", "0"}, "id", false}, step{[]string{"l", "-"}, c7, false})
+	ft(m3, nil, step{strs("x"), "del", false})
+	ft(m3, nil, step{strs("zz"), c7, false})
+	ft(m3, nil, step{strs("p", "q"), c7, false})
+	ft(m3, nil, step{strs("p", "q"), c7, true})
+	ft(m3, nil, step{strs("x", "y"), c7, true})
+	ft(m3, nil, step{strs("l", "0"), "wrap", false}, step{strs("l", "0", "0"), "id", false}, step{strs("l", "-"), c7, false})
 	ft(m3, nil, step{nil, c7, false})
 	ft(m3, nil, step{nil, "id", false})
 	ft(m3, nil, step{nil, "del", false})
@@ -1007,16 +1104,45 @@ func corpus(out *lib.Out) {
 	mc, _ := g0.put(mid)
 	outer := lib.Map(e("k", lib.Link(mc)), e("n", lib.Int(3)), e("direct", lib.Link(ic)))
 	bl := []*lib.Val{inner, mid}
-	ft(outer, bl, step{[]string{"k", "in", "a", "0"}, c7, false})
-	ft(outer, bl, step{[]string{"k", "in", "0new"}, c7, false})
-	ft(outer, bl, step{[]string{"k", "in"}, c7, false})
-	ft(outer, bl, step{[]string{"k", "in", "a", "0"}, "id", false})
-	ft(outer, bl, step{[]string{"k", "in", "a", "0"}, "del", false})
-	ft(outer, bl, step{[]string{"k", "in", "zz"}, "del", false})
-	ft(outer, bl, step{[]string{"k", "in", "a", "-"}, c7, false}, step{[]string{"direct", "b"}, "wrap", false}, step{[]string{"k", "z"}, "del", false})
-	ft(lib.Link(mc), bl, step{[]string{"in", "b"}, c7, false})
+	ft(outer, bl, step{strs("k", "in", "a", "0"), c7, false})
+	ft(outer, bl, step{strs("k", "in", "0new"), c7, false})
+	ft(outer, bl, step{strs("k", "in"), c7, false})
+	ft(outer, bl, step{strs("k", "in", "a", "0"), "id", false})
+	ft(outer, bl, step{strs("k", "in", "a", "0"), "del", false})
+	ft(outer, bl, step{strs("k", "in", "zz"), "del", false})
+	ft(outer, bl, step{strs("k", "in", "a", "-"), c7, false}, step{strs("direct", "b"), "wrap", false}, step{strs("k", "z"), "del", false})
+	ft(lib.Link(mc), bl, step{strs("in", "b"), c7, false})
 	ft(lib.Link(mc), bl, step{nil, "id", false})
-	ft(lib.Map(e("d", lib.Link("\x01\x71\x12\x20"+strings.Repeat("x", 32)))), nil, step{[]string{"d", "a"}, c7, true})
+	ft(lib.Map(e("d", lib.Link("\x01\x71\x12\x20"+strings.Repeat("x", 32)))), nil, step{strs("d", "a"), c7, true})
+	// int-stored path segments against numeric-looking map keys and list positions
+	mnum := lib.Map(e("1", lib.Int(10)), e("01", lib.Int(11)), e("x", lib.Int(12)), e("", lib.Int(13)), e("-1", lib.Int(14)))
+	for _, fn := range []string{"del", c7, "id", "wrap"} {
+		ft(mnum, nil, step{[]pseg{si(1)}, fn, false})
+		ft(mnum, nil, step{[]pseg{ss("1")}, fn, false})
+		ft(mnum, nil, step{[]pseg{ss("01")}, fn, false})
+		ft(mnum, nil, step{[]pseg{si(7)}, fn, false})
+		ft(mnum, nil, step{[]pseg{si(-1)}, fn, false}) // a negative int is the string-stored ""
+		ft(l3, nil, step{[]pseg{si(1)}, fn, false})
+		ft(l3, nil, step{[]pseg{si(3)}, fn, false})
+	}
+	ft(lib.Map(e("m", mnum)), nil, step{[]pseg{ss("m"), si(1)}, "del", false}, step{[]pseg{ss("m"), si(1)}, c7, false}, step{[]pseg{ss("m"), si(1), si(0)}, c7, true})
+	ft(lib.List(mnum, l3), nil, step{[]pseg{si(0), si(1)}, "del", false}, step{[]pseg{si(1), si(2)}, "wrap", false})
+	// indirection blocks: a block that is nothing but a link (chains of them)
+	g1 := newGraph()
+	i1, _ := g1.put(lib.Link(ic))
+	i2, _ := g1.put(lib.Link(i1))
+	i3, _ := g1.put(lib.Link(i2))
+	ind := []*lib.Val{inner, lib.Link(ic), lib.Link(i1), lib.Link(i2)}
+	for _, top := range []string{i1, i2, i3} {
+		o := lib.Map(e("k", lib.Link(top)), e("n", lib.Int(3)))
+		ft(o, ind, step{strs("k", "a", "0"), c7, false})
+		ft(o, ind, step{strs("k", "zz"), c7, false})
+		ft(o, ind, step{strs("k", "b"), "del", false})
+		ft(o, ind, step{strs("k", "a", "0"), "id", false})
+		ft(o, ind, step{strs("k"), "id", false})
+		ft(o, ind, step{strs("k", "a", "-"), c7, false}, step{strs("k", "a", "2"), "wrap", false})
+		ft(lib.Link(top), ind, step{strs("b"), c7, false})
+	}
 	// walking transforms
 	wn := 0
 	wt := func(root *lib.Val, blocks []*lib.Val, st string, fn string) {
@@ -1039,6 +1165,8 @@ func corpus(out *lib.Out) {
 		wt(outer, bl, "F(6b:F(696e:M))", fn)
 	}
 	wt(lib.List(lib.Int(1), lib.List(lib.Int(2))), nil, "U(A(M),F(30:M))", "i2s")
+	wt(lib.Map(e("k", lib.Link(i2))), ind, all, "i2s")
+	wt(lib.Map(e("k", lib.Link(i2))), ind, all, "id")
 	wt(lib.Int(4), nil, "M", "i2s")
 	wt(lib.Null(), nil, "M", "id")
 }
@@ -1112,6 +1240,7 @@ func main() {
 		if v.Kind == lib.KBytes {
 			v = lib.Str("r" + lib.Hex(v.S)) // a bytes root runs into the streamBytes defect of C11; not this property's business
 		}
+		addNumericKeys(r, v)
 		budget := []int{0, 1, 1, 2, 2, 3, 3, 4}[r.Intn(8)]
 		root := split(g, r, v, &budget, true)
 		if len(g.store.Bag) == 0 && budget > 0 && r.Intn(10) < 6 { // make sure most graphs have a link to cross
@@ -1119,12 +1248,12 @@ func main() {
 			case root.Kind == lib.KList && len(root.L) > 0:
 				i := r.Intn(len(root.L))
 				if c, err := g.put(root.L[i]); err == nil {
-					root.L[i] = lib.Link(c)
+					root.L[i] = lib.Link(indirect(g, r, c))
 				}
 			case root.Kind == lib.KMap && len(root.M) > 0:
 				i := r.Intn(len(root.M))
 				if c, err := g.put(root.M[i].V); err == nil {
-					root.M[i].V = lib.Link(c)
+					root.M[i].V = lib.Link(indirect(g, r, c))
 				}
 			}
 		}
